@@ -120,7 +120,7 @@ class ContractDB:
         self.const_overrides = {}
         # abstract kinds whose instances have no __bool__/__len__ (always truthy)
         self.always_truthy = {"type", "XmlMeta", "XmlVar", "XmlNode", "Builder", "Converter", "ParserConfig", "XmlContext",
-                              "ClassType", "Logger", "Match"}
+                              "ClassType", "Logger", "Match", "Model"}
         # the library logger: calls are recorded on the ghost trace, no other effect
         self.const_overrides[("xsdata.logger", "logger")] = Opaque("Logger", z3.Const("xsdata_logger", z3sort(("u", "Logger"))))
         for m in ("warning", "info", "debug", "error"):
@@ -531,8 +531,9 @@ class Maker:
     def value(self, spec, base="p"):
         return self.db.make_value(self.ex, self.st, spec, base)
 
-    def obj(self, cls, fields=None, open_fields=None, **flags):
+    def obj(self, cls, fields=None, open_fields=None, raw=None, **flags):
         o = Obj(cls, {k: (self.value(v, k) if isinstance(v, str) or callable(v) else v) for k, v in (fields or {}).items()})
+        o.fields.update(raw or {})  # concrete field values (no sort-spec interpretation)
         o.open_fields = open_fields
         o.closed = open_fields is None  # reading an undeclared field => undecided, never silently a value
         for k, v in flags.items():
